@@ -78,6 +78,8 @@ const preludeCore = `
 (declare-fun str.length (Str) Int)
 (assert (forall ((s Str)) (! (>= (str.length s) 0) :pattern ((str.length s)))))
 (declare-fun xor32 (Int Int) Int)
+(declare-fun sidx (Int Int) Int)
+(assert (forall ((o Int) (i Int)) (! (= (sidx o i) (+ o i)) :pattern ((sidx o i)))))
 (declare-fun fld (Int Int) Int)
 (declare-fun fld.owner (Int) Int)
 (declare-fun fld.idx (Int) Int)
